@@ -21,13 +21,21 @@ RULE = ("five case families. filter: line lists assembled from segments (complet
         "whether the source line of its frame can be retrieved (if not: function compiled under a pseudo file name / file missing / file empty); "
         "format_asynq_stack() called before the first yield, after a yield, or in a plain function called by the task "
         "(thorough: every source assignment for chains up to depth 5). repr: every (kind, lifecycle state) cell driven through the public API (exhaustive list) plus random "
-        "object trees (dependency trees deeper than the dump cut-off, schedulers with queues) put into arbitrary attribute states. "
+        "object trees (dependency trees deeper than the dump cut-off, schedulers with queues) put into arbitrary attribute states; "
+        "payload axis: every value a cell's driver supplies (returned value, argument of the raised error, item result, scoped value, Value) "
+        "is one of 26 shapes hostile to string formatting (tuples of length 0/1/2/3, nested, strings with % / {} / quotes / line breaks, "
+        "300-character strings, lists, dicts, None, computed futures, objects with a multi-line repr) or a generated nest of them, crossed "
+        "with the cells that hold a value (quick: 18 representative cells, thorough: all 37); generated trees carry generated payloads. "
         "distinct = different case tree; non-trivial = filter: >= 1 complete and >= 1 partial run; chain: depth >= 2; observe: >= 2 observers; stack: depth "
         ">= 2; repr: every cell / tree with >= 1 nested object")
-TRUSTED = ["regular expressions that read status words back out of str()/repr()/dump() output (harness/impl/c18_impl.py parse_summary)",
+TRUSTED = ["regular expressions that read status words back out of str()/repr()/dump() output (harness/impl/c18_impl.py parse_summary) "
+           "and the small reader of Python literals that reads the shown payload back (c18_impl.py _PV)",
            "Pygments (syntax highlighting inside format_error) and the traceback module are exercised, not modelled",
            "CPython's rule for which frames a raise / re-raise / generator.throw adds to __traceback__ is modelled (Diag.v part B), not verified"]
-ASSUMPTIONS = ["user payloads (arguments, values, exception messages) have well-behaved __repr__/__str__ (DESIGN 5.21)",
+ASSUMPTIONS = ["user payloads (arguments, values, exception messages) have well-behaved __repr__/__str__ (DESIGN 5.21): tuples, strings, "
+               "lists, dicts, None, futures and objects with a multi-line repr are well-behaved and are generated",
+               "no generated payload puts a printed line within 150 characters of debug.options.DEBUG_STR_REPR_MAX_LENGTH (the model "
+               "decides the cut of debug.str from a lower bound of the payload's repr length)",
                "the interpreter recursion limit is the default 1000 (the deep creator chain finding depends on it)"]
 
 PATTERNS = [
@@ -309,6 +317,203 @@ def exhaustive_stack(maxd):
 
 
 # --------------------------------------------------------------------------- generators: repr
+# ---- user payloads (Diag.pval): what a computed future holds / its error was built with
+def PInt(n):
+    return {"PInt": [n]}
+
+
+def PStr(x):
+    return {"PStr": [S(x)]}
+
+
+def PTuple(*xs):
+    return {"PTuple": [list(xs)]}
+
+
+def PList(*xs):
+    return {"PList": [list(xs)]}
+
+
+def PDict(*kvs):
+    return {"PDict": [[{"": [k, v]} for k, v in kvs]]}
+
+
+PNone, PMulti = "PNone", "PMulti"
+PFutOk, PFutErr = {"PFut": ["true"]}, {"PFut": ["false"]}
+P3 = PInt(3)                      # the plain payload of the lifecycle cells
+LONG = "x" * 300
+CUT = 240                         # debug.options.DEBUG_STR_REPR_MAX_LENGTH
+MULTI_TEXT = "Multi(\n  rows=2\n)"
+FUT_TEXTS = {"true": "<class 'asynq.futures.ConstFuture'> (computed, = 1)",
+             "false": "<class 'asynq.futures.ErrorFuture'> (computed, error = Boom('n'))"}
+
+STRINGS = ["", "a", "100%", "%s", "%(x)s and %r", "%d items", "{}", "{0} and {name}", "it's", 'say "hi"', "both ' and \"",
+           "line1\nline2", "tab\there", "back\\slash", "(1, 2)", "None", " = self)", LONG]
+
+# one payload of every shape the printing code could trip over (value kind axis of the repr cells)
+PAYLOADS = {
+    "tuple-0": PTuple(), "tuple-1": PTuple(PInt(7)), "tuple-2": PTuple(PInt(1), PStr("x")), "tuple-3": PTuple(PInt(1), PInt(2), PInt(3)),
+    "tuple-1-of-tuple": PTuple(PTuple(PInt(1), PInt(2))), "tuple-of-percent": PTuple(PStr("%s"), PStr("%d")),
+    "none": PNone, "str-percent": PStr("100% of %s"), "str-percent-paren": PStr("%(x)s"), "str-braces": PStr("{} and {0!r}"),
+    "str-empty": PStr(""), "str-quotes": PStr("it's \"q\""), "str-newline": PStr("line1\nline2"), "str-long": PStr(LONG),
+    "list": PList(PInt(1), PInt(2)), "list-empty": PList(), "dict": PDict((PStr("a"), PInt(1)), (PInt(2), PTuple(PInt(3)))),
+    "dict-empty": PDict(), "dict-one-percent-key": PDict((PStr("%s"), PNone)), "negative-int": PInt(-5),
+    "future": PFutOk, "error-future": PFutErr, "multiline-repr": PMulti, "tuple-long": PTuple(PStr(LONG), PInt(1)),
+    "list-of-tuples": PList(PTuple(), PTuple(PInt(1))), "tuple-with-multiline": PTuple(PMulti, PInt(2)),
+}
+
+
+def pctor(p):
+    return (p, []) if isinstance(p, str) else next(iter(p.items()))
+
+
+def py_of(p):
+    """A Python value with the same repr/str as the runner's payload for p (used to measure texts)."""
+    k, a = pctor(p)
+    if k == "PInt":
+        return a[0]
+    if k == "PNone":
+        return None
+    if k == "PStr":
+        return a[0]["s"]
+    if k == "PMulti":
+        return _Txt(MULTI_TEXT)
+    if k == "PFut":
+        return _Txt(FUT_TEXTS[a[0]])
+    if k == "PTuple":
+        return tuple(py_of(x) for x in a[0])
+    if k == "PList":
+        return [py_of(x) for x in a[0]]
+    if k == "PDict":
+        return {py_of(kv[""][0]): py_of(kv[""][1]) for kv in a[0]}
+    raise ValueError(k)
+
+
+class _Txt(object):
+    def __init__(self, t):
+        self.t = t
+
+    def __repr__(self):
+        return self.t
+
+    def __eq__(self, o):
+        return isinstance(o, _Txt) and o.t == self.t
+
+    def __hash__(self):
+        return hash(self.t)
+
+
+def plen(p):
+    """Diag.plen: the model's lower bound of len(repr(p))."""
+    k, a = pctor(p)
+    if k == "PStr":
+        return len(a[0]["s"])
+    if k in ("PTuple", "PList"):
+        return sum(plen(x) for x in a[0])
+    if k == "PDict":
+        return sum(plen(kv[""][0]) + plen(kv[""][1]) for kv in a[0])
+    return 1
+
+
+def has_multi(p):
+    k, a = pctor(p)
+    if k == "PMulti":
+        return True
+    if k in ("PTuple", "PList"):
+        return any(has_multi(x) for x in a[0])
+    if k == "PDict":
+        return any(has_multi(x) for kv in a[0] for x in kv[""])
+    return False
+
+
+def payload_ok(p, small=90):
+    """Outside the grey zone of the debug.str cut: either every line that shows p stays below the limit
+    (len(repr(p)) <= small) or the model's lower bound already exceeds it; a long payload has no
+    multi-line part (the cut could fall inside it); dict keys are distinct."""
+    try:
+        r = len(repr(py_of(p)))
+    except TypeError:
+        return False
+    if not _distinct_keys(p):
+        return False
+    if plen(p) > CUT:
+        return not has_multi(p)
+    return r <= small
+
+
+def _distinct_keys(p):
+    k, a = pctor(p)
+    if k in ("PTuple", "PList"):
+        return all(_distinct_keys(x) for x in a[0])
+    if k == "PDict":
+        keys = [py_of(kv[""][0]) for kv in a[0]]
+        return len(set(keys)) == len(keys) and all(_distinct_keys(x) for kv in a[0] for x in kv[""])
+    return True
+
+
+def payload_kind(p):
+    """Data-derived name of the shape of a payload (site suffix of the repr monitors)."""
+    k, a = pctor(p)
+    if k == "PInt":
+        return "int"
+    if k == "PNone":
+        return "none"
+    if k == "PStr":
+        x = a[0]["s"]
+        return ("str-long" if len(x) > CUT else "str-percent" if "%" in x else "str-braces" if "{" in x
+                else "str-newline" if "\n" in x else "str")
+    if k == "PTuple":
+        return "tuple-%s" % (len(a[0]) if len(a[0]) < 2 else "n")
+    return {"PList": "list", "PDict": "dict", "PFut": "future", "PMulti": "multiline-repr"}.get(k, k)
+
+
+def gen_key(rng):
+    r = rng.random()
+    if r < 0.4:
+        return PInt(rng.randrange(-3, 50))
+    if r < 0.8:
+        return PStr(rng.choice(STRINGS[:-1]))
+    return PTuple(*[PInt(rng.randrange(5)) for _ in range(rng.choice([0, 1, 2]))])
+
+
+def gen_payload(rng, depth=2, small=90):
+    """Mostly tuples (every length), strings hostile to %-/{}-formatting, containers, None, nested futures."""
+    for _ in range(50):
+        p = _gen_payload(rng, depth)
+        if payload_ok(p, small):
+            return p
+    return P3
+
+
+def _gen_payload(rng, depth):
+    r = rng.random()
+    if depth <= 0 or r < 0.4:
+        q = rng.random()
+        if q < 0.25:
+            return PInt(rng.choice([0, 1, 3, 7, -5, 2 ** 40]))
+        if q < 0.35:
+            return PNone
+        if q < 0.8:
+            return PStr(rng.choice(STRINGS))
+        if q < 0.88:
+            return PMulti
+        return rng.choice([PFutOk, PFutErr])
+    n = rng.choice([0, 1, 1, 2, 2, 3, 5])
+    if r < 0.75:
+        return PTuple(*[_gen_payload(rng, depth - 1) for _ in range(n)])
+    if r < 0.87:
+        return PList(*[_gen_payload(rng, depth - 1) for _ in range(n)])
+    return PDict(*[(gen_key(rng), _gen_payload(rng, depth - 1)) for _ in range(min(n, 3))])
+
+
+def OkV(p=P3):
+    return {"OkV": [p]}
+
+
+def ErrV(p=P3):
+    return {"ErrV": [p]}
+
+
 def OFut(c, o):
     return {"OFut": [c, o]}
 
@@ -325,79 +530,112 @@ def OSched(ts, bs, act):
     return {"OSched": [ts, bs, "None" if act is None else {"Some": [act]}]}
 
 
+def OScoped(c, p):
+    return {"OScoped": [c, p]}
+
+
+def OValue(p):
+    return {"OValue": [p]}
+
+
 ITEM, DITEM = "CBatchItem", "CDebugBatchItem"
 T1 = OTask("Unc", 1, True, [])
+NOARGS = PTuple()                 # an exception asynq builds itself, without arguments
+NOT_SET = PStr("Value of this item wasn't set on batch flush.")     # batching.py: the AssertionError of an item left without a value
 
-CELLS = {
-    "FutureBase/fresh": OFut("CFutureBase", "Unc"), "FutureBase/ok": OFut("CFutureBase", "OkV"),
-    "FutureBase/err": OFut("CFutureBase", "ErrV"), "FutureBase/self": OFut("CFutureBase", "OkSelf"),
-    "FutureBase/reset": OFut("CFutureBase", "Unc"), "FutureBase/reset-then-err": OFut("CFutureBase", "ErrV"),
-    "Future/fresh": OFut("CFuture", "Unc"), "Future/ok": OFut("CFuture", "OkV"), "Future/err": OFut("CFuture", "ErrV"),
-    "Future/reset": OFut("CFuture", "Unc"), "Future/reset-then-err": OFut("CFuture", "ErrV"),
-    "ConstFuture/fresh": OFut("CConstFuture", "OkV"), "ConstFuture/ok": OFut("CConstFuture", "OkV"),
-    "ConstFuture/reset": OFut("CConstFuture", "Unc"), "ConstFuture/reset-then-err": OFut("CConstFuture", "ErrV"),
-    "ErrorFuture/fresh": OFut("CErrorFuture", "ErrV"), "ErrorFuture/err": OFut("CErrorFuture", "ErrV"),
-    "ErrorFuture/reset": OFut("CErrorFuture", "Unc"), "ErrorFuture/reset-then-err": OFut("CErrorFuture", "ErrV"),
-    "Task/fresh": OTask("Unc", 0, True, []), "Task/ok": OTask("OkV", 2, False, []), "Task/err": OTask("ErrV", 2, False, []),
-    "Task/reset": OTask("Unc", 2, False, []), "Task/running-first-step": T1,
-    "Task/running-after-yields": OTask("Unc", 3, True, []),
-    "Task/blocked-on-item": OTask("Unc", 1, True, [OFut(ITEM, "Unc")]),
-    "Task/blocked-on-task": OTask("Unc", 1, True, [OFut("CConstFuture", "OkV"), T1]),
-    "Task/blocked-on-two": OTask("Unc", 2, True, [OFut(ITEM, "Unc"), OTask("OkV", 2, False, []), OFut(ITEM, "Unc")]),
-    "Task/in-on-computed": OTask("OkV", 2, False, []), "Task/failed-in-on-computed": OTask("ErrV", 2, False, []),
-    "Task/cancelled-generator-exit": OTask("ErrV", 2, False, []), "Task/returns-itself": OTask("OkSelf", 2, False, []),
-    "Batch/empty": OBatch("CBatch", "Unc", []), "Batch/pending": OBatch("CBatch", "Unc", [OFut(ITEM, "Unc"), OFut(ITEM, "Unc")]),
-    "Batch/flushing": OBatch("CBatch", "Unc", [OFut(ITEM, "Unc")]), "Batch/flushed": OBatch("CBatch", "OkV", []),
-    "Batch/cancelled": OBatch("CBatch", "ErrV", [OFut(ITEM, "ErrV")]), "Batch/flush-failed": OBatch("CBatch", "ErrV", []),
-    "Batch/not-set": OBatch("CBatch", "OkV", []), "Batch/reset": OBatch("CBatch", "Unc", []),
-    "Batch/flushed-by-scheduler": OBatch("CBatch", "OkV", []),
-    "Item/pending": OFut(ITEM, "Unc"), "Item/flushing": OFut(ITEM, "Unc"), "Item/flushed": OFut(ITEM, "OkV"),
-    "Item/cancelled": OFut(ITEM, "ErrV"), "Item/flush-failed": OFut(ITEM, "ErrV"), "Item/not-set": OFut(ITEM, "ErrV"),
-    "Item/reset": OFut(ITEM, "Unc"), "Item/flushed-by-scheduler": OFut(ITEM, "OkV"),
-    "DebugBatch/empty": OBatch("CDebugBatch", "Unc", []), "DebugBatch/pending": OBatch("CDebugBatch", "Unc", [OFut(DITEM, "Unc")]),
-    "DebugBatch/flushing": OBatch("CDebugBatch", "Unc", [OFut(DITEM, "OkV"), OFut(DITEM, "Unc")]),
-    "DebugBatch/flushed": OBatch("CDebugBatch", "OkV", []), "DebugBatch/cancelled": OBatch("CDebugBatch", "ErrV", [OFut(DITEM, "ErrV")]),
-    "DebugBatch/reset": OBatch("CDebugBatch", "Unc", []), "DebugBatch/flushed-by-scheduler": OBatch("CDebugBatch", "OkV", []),
-    "DebugItem/pending": OFut(DITEM, "Unc"), "DebugItem/flushing": OFut(DITEM, "Unc"), "DebugItem/flushed": OFut(DITEM, "OkV"),
-    "DebugItem/cancelled": OFut(DITEM, "ErrV"), "DebugItem/reset": OFut(DITEM, "Unc"),
-    "DebugItem/flushed-by-scheduler": OFut(DITEM, "OkV"),
-    "Sched/idle": OSched([], [], None), "Sched/new": OSched([], [], None), "Sched/running": OSched([T1], [], T1),
-    "Sched/flushing": OSched([], [], None),
-    "Sched/nested-sync-call": OSched([OTask("Unc", 2, True, []), T1], [], T1), "Sched/after-error": OSched([], [], None),
-    "Sched/with-pending-batch": OSched([OTask("Unc", 1, True, [T1, OFut(ITEM, "Unc")]), T1],
-                                       [OBatch("CBatch", "Unc", [OFut(ITEM, "Unc")])], T1),
-    "Scoped/default": {"OScoped": ["CScopedValue"]}, "Scoped/set": {"OScoped": ["CScopedValue"]},
-    "Scoped/overridden": {"OScoped": ["CScopedValue"]}, "Scoped/overridden-in-task": {"OScoped": ["CScopedValue"]},
-    "Override/fresh": {"OScoped": ["CSVOverride"]}, "Override/active": {"OScoped": ["CSVOverride"]},
-    "Override/exited": {"OScoped": ["CSVOverride"]}, "Override/paused-in-task": {"OScoped": ["CSVOverride"]},
-    "PropOverride/fresh": {"OScoped": ["CPropOverride"]}, "PropOverride/active": {"OScoped": ["CPropOverride"]},
-    "PropOverride/exited": {"OScoped": ["CPropOverride"]},
-    "AGen/fresh": {"OAGen": ["false"]}, "AGen/mid": {"OAGen": ["false"]}, "AGen/stopped": {"OAGen": ["true"]},
-    "Value/any": "OValue",
-}
+
+def cells(p=P3):
+    """Every (object kind, lifecycle state) cell, with p as the payload of every value the cell's driver
+    supplies (the returned value, the argument of the raised error, the scoped value ...)."""
+    ok, err = OkV(p), ErrV(p)
+    done = OkV(PNone)             # a flushed batch holds None
+    return {
+        "FutureBase/fresh": OFut("CFutureBase", "Unc"), "FutureBase/ok": OFut("CFutureBase", ok),
+        "FutureBase/err": OFut("CFutureBase", err), "FutureBase/self": OFut("CFutureBase", "OkSelf"),
+        "FutureBase/reset": OFut("CFutureBase", "Unc"), "FutureBase/reset-then-err": OFut("CFutureBase", err),
+        "Future/fresh": OFut("CFuture", "Unc"), "Future/ok": OFut("CFuture", ok), "Future/err": OFut("CFuture", err),
+        "Future/reset": OFut("CFuture", "Unc"), "Future/reset-then-err": OFut("CFuture", err),
+        "ConstFuture/fresh": OFut("CConstFuture", ok), "ConstFuture/ok": OFut("CConstFuture", ok),
+        "ConstFuture/reset": OFut("CConstFuture", "Unc"), "ConstFuture/reset-then-err": OFut("CConstFuture", err),
+        "ErrorFuture/fresh": OFut("CErrorFuture", err), "ErrorFuture/err": OFut("CErrorFuture", err),
+        "ErrorFuture/reset": OFut("CErrorFuture", "Unc"), "ErrorFuture/reset-then-err": OFut("CErrorFuture", err),
+        "Task/fresh": OTask("Unc", 0, True, []), "Task/ok": OTask(ok, 2, False, []), "Task/err": OTask(err, 2, False, []),
+        "Task/reset": OTask("Unc", 2, False, []), "Task/running-first-step": T1,
+        "Task/running-after-yields": OTask("Unc", 3, True, []),
+        "Task/blocked-on-item": OTask("Unc", 1, True, [OFut(ITEM, "Unc")]),
+        "Task/blocked-on-task": OTask("Unc", 1, True, [OFut("CConstFuture", ok), T1]),
+        "Task/blocked-on-two": OTask("Unc", 2, True, [OFut(ITEM, "Unc"), OTask(ok, 2, False, []), OFut(ITEM, "Unc")]),
+        "Task/in-on-computed": OTask(ok, 2, False, []), "Task/failed-in-on-computed": OTask(err, 2, False, []),
+        "Task/cancelled-generator-exit": OTask(ErrV(NOARGS), 2, False, []), "Task/returns-itself": OTask("OkSelf", 2, False, []),
+        "Batch/empty": OBatch("CBatch", "Unc", []), "Batch/pending": OBatch("CBatch", "Unc", [OFut(ITEM, "Unc"), OFut(ITEM, "Unc")]),
+        "Batch/flushing": OBatch("CBatch", "Unc", [OFut(ITEM, "Unc")]), "Batch/flushed": OBatch("CBatch", done, []),
+        "Batch/cancelled": OBatch("CBatch", ErrV(NOARGS), [OFut(ITEM, ErrV(NOARGS))]), "Batch/flush-failed": OBatch("CBatch", err, []),
+        "Batch/not-set": OBatch("CBatch", done, []), "Batch/reset": OBatch("CBatch", "Unc", []),
+        "Batch/flushed-by-scheduler": OBatch("CBatch", done, []),
+        "Item/pending": OFut(ITEM, "Unc"), "Item/flushing": OFut(ITEM, "Unc"), "Item/flushed": OFut(ITEM, ok),
+        "Item/cancelled": OFut(ITEM, ErrV(NOARGS)), "Item/flush-failed": OFut(ITEM, err), "Item/not-set": OFut(ITEM, ErrV(NOT_SET)),
+        "Item/reset": OFut(ITEM, "Unc"), "Item/flushed-by-scheduler": OFut(ITEM, ok),
+        "DebugBatch/empty": OBatch("CDebugBatch", "Unc", []), "DebugBatch/pending": OBatch("CDebugBatch", "Unc", [OFut(DITEM, "Unc")]),
+        "DebugBatch/flushing": OBatch("CDebugBatch", "Unc", [OFut(DITEM, ok), OFut(DITEM, "Unc")]),
+        "DebugBatch/flushed": OBatch("CDebugBatch", done, []), "DebugBatch/cancelled": OBatch("CDebugBatch", ErrV(NOARGS), [OFut(DITEM, ErrV(NOARGS))]),
+        "DebugBatch/reset": OBatch("CDebugBatch", "Unc", []), "DebugBatch/flushed-by-scheduler": OBatch("CDebugBatch", done, []),
+        "DebugItem/pending": OFut(DITEM, "Unc"), "DebugItem/flushing": OFut(DITEM, "Unc"), "DebugItem/flushed": OFut(DITEM, ok),
+        "DebugItem/cancelled": OFut(DITEM, ErrV(NOARGS)), "DebugItem/reset": OFut(DITEM, "Unc"),
+        "DebugItem/flushed-by-scheduler": OFut(DITEM, ok),
+        "Sched/idle": OSched([], [], None), "Sched/new": OSched([], [], None), "Sched/running": OSched([T1], [], T1),
+        "Sched/flushing": OSched([], [], None),
+        "Sched/nested-sync-call": OSched([OTask("Unc", 2, True, []), T1], [], T1), "Sched/after-error": OSched([], [], None),
+        "Sched/with-pending-batch": OSched([OTask("Unc", 1, True, [T1, OFut(ITEM, "Unc")]), T1],
+                                           [OBatch("CBatch", "Unc", [OFut(ITEM, "Unc")])], T1),
+        "Scoped/default": OScoped("CScopedValue", p), "Scoped/set": OScoped("CScopedValue", p),
+        "Scoped/overridden": OScoped("CScopedValue", p), "Scoped/overridden-in-task": OScoped("CScopedValue", p),
+        "Override/fresh": OScoped("CSVOverride", p), "Override/active": OScoped("CSVOverride", p),
+        "Override/exited": OScoped("CSVOverride", p), "Override/paused-in-task": OScoped("CSVOverride", p),
+        "PropOverride/fresh": OScoped("CPropOverride", p), "PropOverride/active": OScoped("CPropOverride", p),
+        "PropOverride/exited": OScoped("CPropOverride", p),
+        "AGen/fresh": {"OAGen": ["false"]}, "AGen/mid": {"OAGen": ["false"]}, "AGen/stopped": {"OAGen": ["true"]},
+        "Value/any": OValue(p),
+    }
+
+
+CELLS = cells()
+# the cells whose printed forms show the payload the driver supplied
+PAYLOAD_CELLS = sorted(n for n, t in cells(PStr("probe")).items() if t != CELLS[n])
+# one cell per (object kind, value/error role, way of getting there): the quick tier crosses these with PAYLOADS
+QUICK_PAYLOAD_CELLS = ["FutureBase/ok", "FutureBase/err", "Future/ok", "ConstFuture/fresh", "ErrorFuture/fresh",
+                       "Task/ok", "Task/err", "Task/in-on-computed", "Task/blocked-on-task", "Item/flushed",
+                       "DebugItem/flushed-by-scheduler", "DebugBatch/flushing", "Batch/flush-failed", "Value/any", "Scoped/set",
+                       "Scoped/overridden-in-task", "Override/active", "PropOverride/active"]
 
 FUT_CLS = ["CFutureBase", "CFuture", "CConstFuture", "CErrorFuture", ITEM, DITEM]
 OUTS = ["Unc", "OkV", "ErrV"]
 
 
-def gen_obj(rng, depth, malformed):
+def gen_out(rng, kinds, small=90):
+    """A future outcome; computed ones carry a payload: plain in a third of the cases, else generated."""
+    k = rng.choice(kinds)
+    if k in ("OkV", "ErrV"):
+        return {k: [P3 if rng.random() < 0.35 else gen_payload(rng, small=small)]}
+    return k
+
+
+def gen_obj(rng, depth, malformed, small=90):
     """Random future-like object tree for the dependency list of a task."""
     r = rng.random()
     if depth <= 0 or r < 0.45:
         c = rng.choice(FUT_CLS)
-        o = rng.choice(OUTS + (["OkSelf"] if c == "CFutureBase" else []))
-        return OFut(c, o)
+        return OFut(c, gen_out(rng, OUTS + (["OkSelf"] if c == "CFutureBase" else []), small))
     if r < 0.85:
-        return gen_task(rng, depth - 1, malformed)
+        return gen_task(rng, depth - 1, malformed, small)
     return gen_batch(rng)
 
 
-def gen_task(rng, depth, malformed):
-    o = rng.choice(["Unc", "Unc", "Unc", "OkV", "ErrV", "OkSelf"])
+def gen_task(rng, depth, malformed, small=90):
+    o = gen_out(rng, ["Unc", "Unc", "Unc", "OkV", "ErrV", "OkSelf"], small)
     nd = rng.choice([0, 1, 1, 2, 3])
     if o != "Unc" and not malformed:
         nd = 0   # _computed drops the dependencies
-    deps = [gen_obj(rng, depth, malformed) for _ in range(nd)]
+    deps = [gen_obj(rng, depth, malformed, small) for _ in range(nd)]
     g = (rng.random() < 0.8) if (o == "Unc" or malformed) else False
     it = rng.choice([0, 1, 1, 2, 3, 7, 120]) if not malformed else rng.choice([-3, 0, 1, 2, 2 ** 40])
     return OTask(o, it, g, deps)
@@ -406,7 +644,7 @@ def gen_task(rng, depth, malformed):
 def gen_batch(rng):
     c = rng.choice(["CBatch", "CDebugBatch"])
     ic = ITEM if c == "CBatch" else DITEM
-    return OBatch(c, rng.choice(OUTS), [OFut(ic, rng.choice(OUTS)) for _ in range(rng.choice([0, 1, 2, 5]))])
+    return OBatch(c, gen_out(rng, OUTS), [OFut(ic, gen_out(rng, OUTS)) for _ in range(rng.choice([0, 1, 2, 5]))])
 
 
 def gen_repr(rng, malformed):
@@ -415,7 +653,7 @@ def gen_repr(rng, malformed):
         n = rng.choice([5, 19, 20, 21, 22, 30])
         t = OFut(ITEM, "Unc")
         for i in range(n):
-            t = OTask("Unc", rng.randrange(1, 4), True, [t] + ([OFut("CConstFuture", "OkV")] if rng.random() < 0.3 else []))
+            t = OTask("Unc", rng.randrange(1, 4), True, [t] + ([OFut("CConstFuture", gen_out(rng, ["OkV"]))] if rng.random() < 0.3 else []))
     elif r < 0.55:
         t = gen_task(rng, rng.choice([1, 2, 3, 4]), malformed)
     elif r < 0.7:
@@ -423,16 +661,34 @@ def gen_repr(rng, malformed):
     elif r < 0.9:
         ts = [gen_task(rng, rng.choice([0, 1, 2]), malformed) for _ in range(rng.choice([0, 1, 2, 4]))]
         bs = [gen_batch(rng)] if rng.random() < 0.5 else []
-        act = rng.choice([None, gen_task(rng, 1, malformed)])
+        # the scheduler's own line quotes the active task's: a tighter bound keeps it out of the grey zone
+        act = rng.choice([None, gen_task(rng, 1, malformed, small=45)])
         t = OSched(ts, bs, act)
     else:
-        t = rng.choice([OFut(rng.choice(FUT_CLS), rng.choice(OUTS)), {"OAGen": [rng.choice(["true", "false"])]},
-                        {"OScoped": [rng.choice(["CScopedValue", "CSVOverride", "CPropOverride"])]}, "OValue"])
+        t = rng.choice([OFut(rng.choice(FUT_CLS), gen_out(rng, OUTS)), {"OAGen": [rng.choice(["true", "false"])]},
+                        OScoped(rng.choice(["CScopedValue", "CSVOverride", "CPropOverride"]), gen_payload(rng)),
+                        OValue(gen_payload(rng))])
     return {"tree": {"CRepr": [t]}, "meta": {"family": "repr", "cell": None, "malformed": malformed}}
 
 
+def cell_case(name, p=None, **meta):
+    m = {"family": "repr", "cell": name}
+    if p is not None:
+        m["payload"] = p
+    m.update(meta)
+    return {"tree": {"CRepr": [cells(p if p is not None else P3)[name]]}, "meta": m}
+
+
 def cell_cases():
-    return [{"tree": {"CRepr": [t]}, "meta": {"family": "repr", "cell": name}} for name, t in sorted(CELLS.items())]
+    return [cell_case(name) for name in sorted(CELLS)]
+
+
+def payload_cell_cases(names, payloads):
+    return [cell_case(n, p, payload_name=pn) for pn, p in sorted(payloads.items()) for n in names]
+
+
+def gen_payload_cell(rng):
+    return cell_case(rng.choice(PAYLOAD_CELLS), gen_payload(rng, rng.choice([1, 2, 2, 3]), small=45), payload_name="generated")
 
 
 # --------------------------------------------------------------------------- all cases
@@ -444,6 +700,7 @@ def gen_cases(rng, tier):
     cs += [gen_stack(rng, tier) for _ in range(70 if quick else 500)]
     cs += [gen_repr(rng, rng.random() < 0.25) for _ in range(110 if quick else 1500)]
     if not quick:
+        cs += payload_cell_cases(PAYLOAD_CELLS, PAYLOADS)
         a = PATTERNS[0][0][:2] + ["x"]
         cs += exhaustive_filter(5, ["  in " + x for x in a])
         b = PATTERNS[2][0][:1] + PATTERNS[2][0][1:2] + PATTERNS[2][0][4:] + ["    raise value"]
@@ -457,6 +714,10 @@ def gen_cases(rng, tier):
             cs.append(mk_chain([(m, "HSync") for m in modes], "BErrorFuture"))
     # generated last so that the PRNG stream of the older families is unchanged
     cs += [gen_observe(rng, tier, rng.random() < 0.25) for _ in range(90 if quick else 800)]
+    # the payload axis of the repr cells (value kind x object kind x state)
+    if quick:
+        cs += payload_cell_cases(QUICK_PAYLOAD_CELLS, PAYLOADS)
+    cs += [gen_payload_cell(rng) for _ in range(60 if quick else 1200)]
     return cs
 
 
@@ -468,7 +729,15 @@ def _run(p, embed='  File "asynq/x.py", line 1, in %s\n'):
     return [embed % e for e in PATTERNS[p][0]]
 
 
-CORPUS = cell_cases() + [
+CORPUS = [
+    # a computed future whose value is a tuple: the value must never become a "%" argument list
+    cell_case("ConstFuture/fresh", PTuple(PInt(1), PInt(2)), payload_name="tuple-2"),
+    # ... a task that returned a 1-tuple: str and repr show the tuple, not its element
+    cell_case("Task/ok", PTuple(PInt(7)), payload_name="tuple-1"),
+    # ... a flushed batch item holding (), and an error built with a "%s" string inside a tuple
+    cell_case("Item/flushed", PTuple(), payload_name="tuple-0"),
+    cell_case("Task/err", PTuple(PStr("%s"), PNone), payload_name="tuple-of-percent"),
+] + cell_cases() + [
     _lines(),
     _lines(*(["\n"] + _run(1) + _run(0) + _run(2) + FOREIGN[:2])),                    # asynq's own test text
     _lines(*(_run(2)[:3] + FOREIGN[:2])),                                              # partial run, then foreign
@@ -816,14 +1085,96 @@ def monitors(c, io, build):
     elif fam == "CRepr":
         if isinstance(out, dict) and "NotDriven" in out:
             return fs
+        cell = obs.get("cell") or "generated-state"
+        st = cell.split("/")[1] if "/" in cell else cell
+        pk = top_payload_kind(c)
+        suffix = "" if pk in (None, "int") else ":payload=%s" % pk
+        typ = obs.get("type")
         for nm in ("str", "repr", "dump"):
             v = obs.get(nm)
             if v not in ("ok", "n/a"):
-                cell = obs.get("cell") or "generated-state"
-                st = cell.split("/")[1] if "/" in cell else cell
-                fs.append(dict(clause="repr-never-raises", site="%s:%s:%s" % (nm, obs.get("type"), v),
-                               msg="%s() of a %s in state %s raised %s" % (nm, obs.get("type"), st, v)))
+                fs.append(dict(clause="repr-never-raises", site="%s:%s:%s%s" % (nm, typ, v, suffix),
+                               msg="%s() of a %s in state %s%s raised %s" % (nm, typ, st, " holding a %s payload" % pk if pk else "", v)))
+        # dump() goes through debug.str, which turns an exception of str() into an n/a line: str() of
+        # that object raised all the same
+        if obs.get("dump") == "ok" and obs.get("dump_na_lines"):
+            fs.append(dict(clause="repr-never-raises", site="dump:%s:line-is-n/a-text%s" % (typ, suffix or nested_suffix(c)),
+                           msg="dump() of a %s in state %s printed %d '<n/a: str(...) raised' line(s): str() of an object in the dump raised: %s"
+                               % (typ, st, obs["dump_na_lines"], (obs.get("dump_text") or "")[:200])))
+        # faithful: the text of a computed future (finished task, flushed item, Value, scoped value,
+        # override) shows the value it holds / the error it failed with -- repr(payload) is in the text
+        h = obs.get("holds")
+        if h:
+            what = "value" if h["role"] == "value" else "error"
+            for nm in ("str", "repr", "dump"):
+                if obs.get(nm) != "ok":
+                    continue
+                if nm == "dump":
+                    if obs.get("dump_first_cut") or obs.get("dump_na_lines"):
+                        continue      # cut by debug.str at DEBUG_STR_REPR_MAX_LENGTH / reported above
+                    text = obs.get("dump_text") or ""
+                    # debug.write indents the continuation lines of a multi-line text
+                    text = re.sub(r"\n +", "\n", text)
+                    wants = [re.sub(r"\n +", "\n", h["repr"])]
+                    if shows_only_status(c):
+                        continue
+                else:
+                    text = obs.get(nm + "_text") or ""
+                    wants = [h["repr"]] + ([h["str"]] if nm == "str" and typ == "AsyncScopedValue" else [])
+                    if nm == "str" and shows_only_status(c):
+                        continue      # a batch's own __str__ gives state and item count, not the value
+                if not any(w in text for w in wants):
+                    fs.append(dict(clause="repr-shows-value", site="%s:%s:%s-not-shown%s" % (nm, typ, what, suffix),
+                                   msg="%s() of a %s in state %s is %r: it does not show the %s it holds, %s"
+                                       % (nm, typ, st, text[:160], what, h["repr"][:80])))
     return fs
+
+
+def top_payload(c):
+    """The payload the printed object itself holds, per the case (None: it holds none)."""
+    t = c["tree"]["CRepr"][0]
+    if not isinstance(t, dict):
+        return None
+    k, a = next(iter(t.items()))
+    o = a[1] if k in ("OFut", "OBatch") else a[0] if k == "OTask" else None
+    if isinstance(o, dict):
+        return next(iter(o.values()))[0]
+    if k == "OScoped":
+        return a[1]
+    if k == "OValue":
+        return a[0]
+    return None
+
+
+def top_payload_kind(c):
+    p = top_payload(c)
+    return None if p is None else payload_kind(p)
+
+
+def all_payloads(t):
+    """Every payload in an object tree."""
+    if isinstance(t, list):
+        for x in t:
+            yield from all_payloads(x)
+    elif isinstance(t, dict):
+        for k, a in t.items():
+            if k in ("OkV", "ErrV", "OValue"):
+                yield a[0]
+            elif k == "OScoped":
+                yield a[1]
+            else:
+                yield from all_payloads(a)
+
+
+def nested_suffix(c):
+    """The printed object holds no payload itself; some object below it does."""
+    return ":nested-object" if any(payload_kind(p) != "int" for p in all_payloads(c["tree"])) else ""
+
+
+def shows_only_status(c):
+    """BatchBase.__str__ (and so the batch's dump line) prints state and item count only."""
+    t = c["tree"]["CRepr"][0]
+    return isinstance(t, dict) and "OBatch" in t
 
 
 def compare(c, m, io):
@@ -864,7 +1215,8 @@ def distribution(cases):
          "stack_sourceless": {"none": 0, "outermost-only": 0, "below-outermost": 0, "calling-task": 0, "all": 0}, "stack_nosrc_how": {}, "stack_call_site": {},
          "observe_observers": {}, "observe_kinds": {}, "observe_driver": {}, "observe_reader_how": {},
          "observe_second_look_after": {}, "observe_chain_depth": {},
-         "repr_cells": 0, "repr_generated": {}, "malformed": 0}
+         "repr_cells": 0, "repr_generated": {}, "repr_payload_cells": {}, "repr_top_payload": {}, "repr_payload_role": {},
+         "repr_payloads_in_trees": {}, "repr_long_payload_cut_in_dump": 0, "malformed": 0}
 
     def bucket(n):
         return "0" if n == 0 else "1-3" if n <= 3 else "4-12" if n <= 12 else "13-50" if n <= 50 else "51-300" if n <= 300 else ">300"
@@ -933,7 +1285,20 @@ def distribution(cases):
             cs_ = meta.get("call_site", "after-yield")
             d["stack_call_site"][cs_] = d["stack_call_site"].get(cs_, 0) + 1
         else:
-            if meta.get("cell"):
+            pk = top_payload_kind(c)
+            if pk:
+                d["repr_top_payload"][pk] = d["repr_top_payload"].get(pk, 0) + 1
+                o = t[0][next(iter(t[0]))]
+                role = "error-argument" if any(isinstance(x, dict) and "ErrV" in x for x in o) else "value"
+                d["repr_payload_role"][role] = d["repr_payload_role"].get(role, 0) + 1
+            for q in all_payloads(t):
+                k_ = payload_kind(q)
+                d["repr_payloads_in_trees"][k_] = d["repr_payloads_in_trees"].get(k_, 0) + 1
+            d["repr_long_payload_cut_in_dump"] += any(plen(q) > CUT for q in all_payloads(t))
+            if meta.get("cell") and meta.get("payload") is not None:
+                kind = meta["cell"].split("/")[0]
+                d["repr_payload_cells"][kind] = d["repr_payload_cells"].get(kind, 0) + 1
+            elif meta.get("cell"):
                 d["repr_cells"] += 1
             else:
                 k = next(iter(t[0])) if isinstance(t[0], dict) else t[0]
@@ -1009,8 +1374,16 @@ def shrink(c):
             yield {"tree": {"CStack": ["SrcFile", cs]}, "meta": meta}
         if meta.get("call_site", "after-yield") != "after-yield" or (meta.get("nosrc_how") or ["exec"]) != ["exec"]:
             yield {"tree": {"CStack": [s0, cs]}, "meta": dict(meta, call_site="after-yield", nosrc_how=["exec"])}
+    elif fam == "CRepr" and meta.get("cell") and meta.get("payload") is not None:
+        # smaller payloads of the same cell: drop an element / entry, replace an element by a plain int
+        for q in shrink_payload(meta["payload"]):
+            yield cell_case(meta["cell"], q, payload_name="shrunk", shrunk=True)
     elif fam == "CRepr" and not meta.get("cell"):
         o = t[0]
+        for q in all_payloads(o):
+            if q != P3:
+                yield {"tree": {"CRepr": [subst_payload(o, q, P3)]}, "meta": meta}
+                break
         if isinstance(o, dict):
             k = next(iter(o))
             if k == "OTask":
@@ -1027,6 +1400,33 @@ def shrink(c):
                     yield {"tree": {"CRepr": [x]}, "meta": meta}
 
 
+def shrink_payload(p):
+    k, a = pctor(p)
+    if k in ("PTuple", "PList"):
+        xs = a[0]
+        for i in range(len(xs)):
+            yield {k: [xs[:i] + xs[i + 1:]]}
+        for i, x in enumerate(xs):
+            if x != PInt(1):
+                yield {k: [xs[:i] + [PInt(1)] + xs[i + 1:]]}
+    elif k == "PDict":
+        kvs = a[0]
+        for i in range(len(kvs)):
+            yield {k: [kvs[:i] + kvs[i + 1:]]}
+    elif k == "PStr" and len(a[0]["s"]) > 2 and len(a[0]["s"]) < CUT:
+        yield PStr(a[0]["s"][:len(a[0]["s"]) // 2])
+
+
+def subst_payload(t, old, new):
+    if t == old:
+        return new
+    if isinstance(t, list):
+        return [subst_payload(x, old, new) for x in t]
+    if isinstance(t, dict):
+        return {k: subst_payload(v, old, new) for k, v in t.items()}
+    return t
+
+
 def model_input(c):
     return coqrun.coq_of(c["tree"])
 
@@ -1035,4 +1435,6 @@ EXPLANATION = ("Coq theorems about Diag.v (filter_traceback rewriting, traceback
                "re-checked; Diag.run_case is evaluated with vm_compute on every case and compared with asynq (pure and Cython "
                "builds): filter_traceback output, hide-aware user frames of the traceback reaching the caller and of the traceback every one of several "
                "observers of the same failed task catches, the entries of "
-               "format_asynq_stack(), and the status words parsed out of str()/repr()/dump(). Monitors encode the statement directly.")
+               "format_asynq_stack(), and the status words and the payload shown, parsed out of str()/repr()/dump(), for payloads of every shape "
+               "(tuples of any length, %-/{}-strings, containers, None, nested futures, long and multi-line reprs). Monitors encode the statement directly: "
+               "no call raises, no dump line degrades to the n/a text, the text of a computed object contains repr of what it holds.")
